@@ -177,6 +177,7 @@ struct BodyState {
     reader: Option<BodyReader>,
     skip_method_body_check: bool,
     stop_on_chunk_boundary: bool,
+    allow_partial_redirect: bool,
 }
 
 impl BodyState {
@@ -494,6 +495,12 @@ impl<B> Call<RecvResponse, B> {
                 // As a special case, to handle broken servers that does a redirect without
                 // the final trailing \r\n, we try parsing the response as partial, and
                 // if it is a redirect, we can allow the request to continue.
+                if !self.state.allow_partial_redirect {
+                    // Without the user opting in, an incomplete response always
+                    // means waiting for more input. More headers might follow.
+                    return Ok(None);
+                }
+
                 if let Some(mut r) = try_parse_partial_response::<MAX_RESPONSE_HEADERS>(input)? {
                     // A redirection must have a location header.
                     let is_complete_redirection =
@@ -545,6 +552,18 @@ impl<B> Call<RecvResponse, B> {
         self.state.reader = Some(recv_body_mode);
 
         Ok(Some((input_used, response)))
+    }
+
+    /// Set whether to accept a redirect response that lacks the final `\r\n`.
+    ///
+    /// Some broken servers end a redirect response without the trailing empty line.
+    /// When enabled, such a response is accepted as soon as the input holds a `Location`
+    /// header, and the connection is marked to be closed. Only enable this when no more
+    /// input is coming, since headers arriving later are lost.
+    ///
+    /// Defaults to `false`.
+    pub fn allow_partial_redirect(&mut self, enabled: bool) {
+        self.state.allow_partial_redirect = enabled;
     }
 
     /// Tell if the response has been received.
